@@ -424,8 +424,21 @@ def _range_text(r):
     return ",".join(parts) + (" " + cls if cls is not None else "")
 
 
+def _approx_begin(left):
+    """a guess of the ordinal the expansion starts from (only used to keep generated expansions small)"""
+    import re
+    m = re.search(r":(\d+)", left) or re.search(r"\.(\d+)", left)
+    if m:
+        return int(m.group(1))
+    m = re.search(r"(\d+)(?:/(\d+))?(?:/(\d+))?", left)
+    if not m:
+        return 0
+    return int([g for g in m.groups() if g is not None][-1])
+
+
 def _too_big(text):
-    """keep generated expansions small: __hash__ is 3**port (slow for long digit runs) and every member is rendered"""
+    """keep generated expansions small: __hash__ is 3**port (slow for long digit runs), every member is rendered,
+    and the model's de-duplication is quadratic"""
     import re
     if len(text) > 80 or re.search(r"\d{6}", text):
         return True
@@ -434,9 +447,9 @@ def _too_big(text):
         if len(pc) == 2:
             d = "".join(ch for ch in pc[1] if ch.isdigit())
             if d:
-                runs = re.findall(r"\d+", pc[0])
-                lo = int(runs[-1]) if runs else 0
-                if int(d) > 12000 or int(d) - lo > 400:
+                runs = [int(x) for x in re.findall(r"\d+", pc[0])] or [0]
+                e = int(d)
+                if e > 12000 or e - _approx_begin(pc[0]) > 400 or (e - min(runs) > 400 and e - _approx_begin(pc[0]) < 0):
                     return True
     return False
 
